@@ -31,7 +31,8 @@ def gen(ctx):
         yield dict(kind="rev", hist=hist, prev=prev, R=rng.randrange(256), T=rng.randint(1, 8), form=form,
                    dtype=rng.choice(["int32", "int32", "int64", "uint8", "int8", "uint16", "int16"]),
                    scribble=int(form in ("list", "array") and rng.random() < 0.4),
-                   split=rng.choice([0, 0, 1, 2, 3]), twin=int(form in ("list", "array") and rng.random() < 0.2))
+                   split=rng.choice([0, 0, 1, 2, 3]), twin=int(form in ("list", "array") and rng.random() < 0.2),
+                   bits=int(rng.random() < 0.2))
 
 
 def line(c):
@@ -50,6 +51,13 @@ def run(c):
         init = ca[0]
     else:
         init = ca[-1]
+    if c.get("bits"):
+        # the caller looked at the rule's bit table first and edited ITS copy (what int_to_bits returned is the caller's)
+        b = cpl.int_to_bits(c["R"], 8)
+        try:
+            b[...] = np.arange(len(b)) % 2         # (not an involution: doing it twice must not undo it)
+        except (TypeError, ValueError):
+            pass
     rule = cpl.ReversibleRule(init, c["R"])
     if c.get("scribble"):
         # the caller goes on using its own data: the rule must have taken s(-1) at construction
